@@ -13,7 +13,7 @@ COMMON_ASSUMPTIONS = [
     'one clock reading per cache operation (age_secs / now_secs uninterpreted)',
 ]
 
-ENGINES = ['global_cache']
+ENGINES = ['global_cache', 'thread_local_cache', 'async_cache']
 
 PROPERTIES = {
     'C06': dict(units=ENGINES, explanation='is_expired == (age >= ttl) and the get postconditions never_serves_expired / purges_expired / serves_unexpired, for all ttl and ages'),
